@@ -203,8 +203,13 @@ func jxStr(t *simrt.Tape, pal []string) string {
 
 // jxID draws a short identifier (mostly plain, sometimes a hard string).
 func jxID(t *simrt.Tape, pal []string, i int) string {
-	if t.Choose(simrt.KValue, 3) == 2 {
+	switch t.Choose(simrt.KValue, 8) {
+	case 5, 6:
 		return jxStr(t, pal)
+	case 7:
+		// the empty identifier is legal everywhere and is where omitempty
+		// tags and "is the key present" tests disagree
+		return ""
 	}
 	return "n" + strconv.Itoa(i)
 }
